@@ -313,7 +313,9 @@ static void __attribute__((noinline)) cycles_build(long n) {
 static void __attribute__((noinline)) boxcont_build(long n) {
   var a = new(Array, Box), l = new(List, Box), t = new(Table, Int, Box), r = new(Tree, Int, Box);
   for (long i = 0; i < n; i++) {
-    var nd = new(Node, $I(1000 + i));
+    var nd = NULL;
+    if (i % 5 == 4) { next_slot = 5000 + i; nd = new(ANode, $I(1000 + i)); }      /* every fifth: an object of a type with its own allocator */
+    else nd = new(Node, $I(1000 + i));
     switch (i % 4) { case 0: push(a, nd); break; case 1: push(l, nd); break; case 2: set(t, $I(i), $(Box, nd)); break; default: set(r, $I(i), $(Box, nd)); }       /* a map takes a value of its value type */
   }
   if (len(a) > 1) ref(get(a, $I(1)), NULL);               /* emptied: the Node it owned is plain garbage now */
